@@ -163,6 +163,23 @@ class GStore(QueueStorage):
         c.log(t='store', op='set_recipients_delivered', id=sid, idx=sorted(int(i) for i in rcpt_indexes), now=c.now())
 
     def load(self):
+        if getattr(self, 'lazy_load', False):
+            return self._lazy_load()
+        return self._eager_load()
+
+    def _lazy_load(self):
+        # the listing as the disk and redis backends produce it: a generator that yields (waits for I/O) before every entry
+        c = self.ctl
+        self._gate('load', 0)
+        entries = self._call(lambda: list(self.inner.load()))
+        for ts, raw in entries:
+            self._gate('load_next', c.sid(raw))
+            sid = c.sid(raw)
+            c.stored.add(sid)
+            c.log(t='store', op='load', id=0, entries=[[int(ts), sid]], now=c.now())
+            yield ts, raw
+
+    def _eager_load(self):
         c = self.ctl
         self._gate('load', 0)
         entries = self._call(lambda: list(self.inner.load()))
@@ -438,6 +455,18 @@ class Scenario(object):
         if self.bq is not None:
             bq_enqueue = self.bq.enqueue
             self.bq.enqueue = lambda env: enqueue(env, via='configured')
+        self.store.lazy_load = bool(cfg.get('lazy_load'))
+        # preload: messages that are in the storage when the queue starts (accepted by an earlier incarnation), due at once
+        for k in range(cfg.get('preload', 0)):
+            m = 80 + k
+            env = self.make_env(m)
+            raw = self.inner.write(env.copy(), CLOCK.now)
+            sid = c.sid(raw)
+            c.rcpts[sid] = list(env.recipients)
+            c.stored.add(sid)
+            c.content2id.setdefault(content_key(env), sid)
+            c.log(t='store', op='write', id=sid, ts=int(CLOCK.now), n=len(env.recipients), sender=1, bounce=0, now=c.now())
+            c.log(t='enq_ret', msg=m, ids=[sid], now=c.now())
         self.pending_msgs = list(range(1, cfg.get('nmsgs', 1) + 1))
         self.flushes = cfg.get('flush', 0)
         self.announces = 2 if cfg.get('announce') else 0
@@ -712,9 +741,13 @@ def run_plan(cfg, make_inner, plan, on_trace=None):
                 if nth == 0:
                     return i
             if o[0] == 'relay' and want == 'relay:' + o[2]:
-                return i
+                nth -= 1
+                if nth == 0:
+                    return i
             if o[0] in ('enq', 'adv', 'flush', 'announce', 'announce_new') and o[0] == want:
-                return i
+                nth -= 1
+                if nth == 0:
+                    return i
         return None
     ev, taken = sc.run(chooser)
     on_trace(ev, taken)
